@@ -432,11 +432,17 @@ func H_C06_readd_text() {
 	vFlushAt(0, ix.Flush)
 	vAssert(ix.Remove(5) == nil, "remove-ok")
 	vFlushAt(1, ix.Flush)
-	vAssert(ix.Add(5, "new cat") == nil, "re-add-ok")
+	// the new content: other words, the very same text again, or a text that only differs in case / width (same tokens)
+	newText := []string{"new cat", "tick tick fox dog", "Tick TICK Ｆｏｘ dog"}[vChoose("new_text", 3)]
+	newWord, oldWord := "cat", "fox"
+	if newText != "new cat" {
+		newWord, oldWord = "fox", "emu"
+	}
+	vAssert(ix.Add(5, newText) == nil, "re-add-ok")
 	vFlushAt(2, ix.Flush)
 	for pass := 0; pass < 2; pass++ {
-		rNew, e1 := ix.NewSearch().WithQuery("cat").WithK(0).Execute()
-		rOld, e2 := ix.NewSearch().WithQuery("fox").WithK(0).Execute()
+		rNew, e1 := ix.NewSearch().WithQuery(newWord).WithK(0).Execute()
+		rOld, e2 := ix.NewSearch().WithQuery(oldWord).WithK(0).Execute()
 		vAssert(e1 == nil && e2 == nil, "search-ok")
 		vAssert(len(rNew) == 1 && rNew[0].Id == 5, "new-text-findable")
 		vAssert(len(rOld) == 0, "old-text-not-findable")
@@ -444,7 +450,7 @@ func H_C06_readd_text() {
 			vAssert(ix.Flush() == nil, "flush-ok")
 		}
 	}
-	corpus := map[uint32]*vCorpusDoc{5: {toks: tokenize(normalize("new cat"))}, 3: {toks: tokenize(normalize("dog"))}}
+	corpus := map[uint32]*vCorpusDoc{5: {toks: tokenize(normalize(newText))}, 3: {toks: tokenize(normalize("dog"))}}
 	vBM25Inv(ix, corpus)
 	vCover("ran")
 }
